@@ -556,6 +556,18 @@ def chk_native(T, v, M, rng):
         got = x690.norm(T, bridge.from_value(T, back))
         if got != want and not (T['k'] == 'REAL' or 'kind:REAL' in features(T)):
             out.append(fail('native', T, v, 'native round trip differs', got=repr(got)[:200], py=repr(py)[:200]))
+        if T['k'] == 'REAL' and isinstance(v, tuple):
+            # reals compared as python floats, up to rounding: the float the value denotes, computed exactly
+            from fractions import Fraction
+            m_, b_, e_ = v
+            try:
+                exact = float(Fraction(m_) * Fraction(b_) ** e_)
+            except OverflowError:
+                exact = None
+            if exact is not None and abs(exact) > 1e-320:          # (above the last few subnormals: one ulp is the value there)
+                got_f = float(back)
+                if abs(got_f - exact) > abs(exact) * 1e-12 or (exact != 0.0) != (got_f != 0.0):
+                    out.append(fail('native', T, v, 'native round trip of a REAL: %r became %r' % (exact, got_f), py=repr(py)[:100]))
     except Exception as ex:
         if not ('kind:REAL' in features(T) and isinstance(ex, OverflowError)):
             out.append(fail('native', T, v, 'native round trip raised %s: %s' % (type(ex).__name__, str(ex)[:150])))
